@@ -9,16 +9,23 @@ import RtenVerif.Model.ShapeInfer
 namespace RtenVerif.ShapeInfer
 
 /-- The value the inferred expression evaluates to (`SymExpr::eval`: truncating `/`, `div_ceil`),
-as coded after fix 1c9e5a4: `min(ceil + 1, max(ceil, (in + pad_start - 1) / stride + 1))`. -/
+as coded after the fixes 1c9e5a4 and the empty-input fix:
+`min(ceil + 1, max(ceil, div_ceil(in + pad_start, stride)))`. -/
 def poolInferSize (inp k s d ps pe : Int) (ceil : Bool) : Int :=
   let w := inp + ps + pe - d * (k - 1) - 1
   if !ceil then tdiv w s + 1
   else
     let c := cdiv w s
-    let m := tdiv (inp + ps - 1) s + 1
+    let m := cdiv (inp + ps) s
     Min.min (c + 1) (Max.max c m)
 
-/-- Before the fix: `min(ceil + 1, (in + pad_start - 1) / stride + 1)`. -/
+/-- With the limit written `(in + pad_start - 1) / stride + 1` (before the empty-input fix). -/
+def poolInferSizeTrunc (inp k s d ps pe : Int) : Int :=
+  let w := inp + ps + pe - d * (k - 1) - 1
+  let c := cdiv w s
+  Min.min (c + 1) (Max.max c (tdiv (inp + ps - 1) s + 1))
+
+/-- Before fix 1c9e5a4: `min(ceil + 1, (in + pad_start - 1) / stride + 1)`. -/
 def poolInferSizeOld (inp k s d ps pe : Int) : Int :=
   let w := inp + ps + pe - d * (k - 1) - 1
   Min.min (cdiv w s + 1) (tdiv (inp + ps - 1) s + 1)
@@ -27,18 +34,10 @@ def poolInferSizeOld (inp k s d ps pe : Int) : Int :=
 def poolInferSizeSeeded (inp k s d ps pe : Int) : Int :=
   let w := inp + ps + pe - d * (k - 1) - 1
   let c := cdiv w s
-  Min.min (c + 1) (Max.max c (tdiv (inp - 1) s + 1))
+  Min.min (c + 1) (Max.max c (cdiv inp s))
 
-/-- The same rule on symbolic input size (kernel, stride, dilation and pads are attributes). -/
-def poolInferSym (inp : Sym) (k s d ps pe : Int) (ceil : Bool) : Sym :=
-  let one : Sym := .val 1
-  let padded : Sym := .add (.add inp (.val ps)) (.val pe)
-  let w : Sym := .sub (.sub padded (.mul (.val d) (.sub (.val k) one))) one
-  if !ceil then .add (.div w (.val s)) one
-  else
-    let maxSize : Sym := .add (.div (.sub (.add inp (.val ps)) one) (.val s)) one
-    let c : Sym := .divCeil w (.val s)
-    .min (.add c one) (.max c maxSize)
+/-- The same rule on symbolic input size and symbolic kernel size (`convOutSym`, Fixed padding). -/
+def poolInferSym (inp k : Sym) (s d ps pe : Int) (ceil : Bool) : Sym := convOutSym inp k s d (some (ps, pe)) ceil
 
 /-- The executor: `none` = "Input too small for kernel size". -/
 def poolExecSize (inp k s d ps pe : Nat) (ceil : Bool) : Option Nat :=
